@@ -87,10 +87,29 @@ func gen(t *rapid.T) Script {
 			if rapid.IntRange(0, 3).Draw(t, "beyond") == 0 {
 				total--
 			}
-			s.Ops = append(s.Ops, Op{Kind: "new", Mode: rapid.SampledFrom([]string{"hang", "read-body"}).Draw(t, "mode"), CL: total})
+			// lazy end: no body frame carries END_STREAM; the handler answers once the declared octets are there (or when
+			// it is released) and only then the client closes its side with an empty DATA frame or with trailers, as
+			// clients that flush END_STREAM separately do
+			lazy := rapid.IntRange(0, 2).Draw(t, "lazyEnd") == 0
+			modes := []string{"hang", "read-body"}
+			if lazy {
+				modes = []string{"hang", "read-declared", "read-declared"}
+			}
+			mode := rapid.SampledFrom(modes).Draw(t, "mode")
+			s.Ops = append(s.Ops, Op{Kind: "new", Mode: mode, CL: total})
 			nStreams++
 			for j, p := range pieces {
-				s.Ops = append(s.Ops, Op{Kind: "data", Ref: nStreams - 1, N: p, End: j == len(pieces)-1, Variant: rapid.SampledFrom([]string{"", "padded", "padded", "padding-only"}).Draw(t, "dv")})
+				s.Ops = append(s.Ops, Op{Kind: "data", Ref: nStreams - 1, N: p, End: !lazy && j == len(pieces)-1, Variant: rapid.SampledFrom([]string{"", "padded", "padded", "padding-only"}).Draw(t, "dv")})
+			}
+			if lazy {
+				if mode == "hang" {
+					s.Ops = append(s.Ops, Op{Kind: "release", Ref: nStreams - 1})
+				}
+				if rapid.IntRange(0, 3).Draw(t, "lazyTrailers") == 0 {
+					s.Ops = append(s.Ops, Op{Kind: "trailers", Ref: nStreams - 1})
+				} else {
+					s.Ops = append(s.Ops, Op{Kind: "data", Ref: nStreams - 1, N: 0, End: true, Variant: "lazy-end"})
+				}
 			}
 			continue
 		case "new":
@@ -256,6 +275,9 @@ func exec(t *testing.T, s Script) (viol *vstat.Violation, classes map[string]boo
 				}
 			case "read-body":
 				io.Copy(io.Discard, r.Body)
+			case "read-declared":
+				// reads what the request declared and answers, without waiting for the end of the stream
+				io.CopyN(io.Discard, r.Body, r.ContentLength)
 			case "big":
 				w.Write(make([]byte, 1<<20)) // more than the connection can buffer: the frame writer blocks if the client does not read
 				return
@@ -285,7 +307,7 @@ func exec(t *testing.T, s Script) (viol *vstat.Violation, classes map[string]boo
 		running := func() int { // handlers the model knows to be running
 			n := 0
 			for _, st := range streams {
-				if st.started && !st.serverClosed && ((st.mode == "hang" || st.mode == "push") && !st.released || st.mode == "read-body" && !st.clientEnded && !st.clientReset) {
+				if st.started && !st.serverClosed && ((st.mode == "hang" || st.mode == "push") && !st.released || (st.mode == "read-body" || st.mode == "read-declared") && !st.clientEnded && !st.clientReset) {
 					n++
 				}
 				if st.started && st.mode == "push" {
@@ -663,6 +685,9 @@ func exec(t *testing.T, s Script) (viol *vstat.Violation, classes map[string]boo
 								classes["data-after-padded-data-within-content-length"] = true
 							}
 							classes["data-within-content-length"] = true
+							if op.End && len(payload) == 0 && st.body == st.decl && st.decl > 0 {
+								classes["end-stream-in-an-empty-data-frame-after-the-complete-declared-body"] = true
+							}
 						}
 						st.body += int64(len(payload))
 						st.sawPadded = st.sawPadded || padded
